@@ -179,6 +179,7 @@ func runLSM(u Univ, cfg Config, seed uint64, steps int, path string) (int, error
 		t.Mu.Unlock()
 	}
 	r = NewRunner(u, cfg, fs, "db", t)
+	r.Logger = crashLogger{}
 	if err := r.Open(); err != nil {
 		return 0, err
 	}
@@ -283,7 +284,10 @@ func TestLSM(t *testing.T) {
 		cfg := cfgs[cn]
 		cfg.MaintEvery = 0
 		path := filepath.Join(out, fmt.Sprintf("L-%d-%04d-%s.ndjson", seed, i, cn))
-		n, ferr := runLSM(u, cfg, seed*7717+uint64(i), steps, path)
+		n, _, _, ferr := guardedCrash(path, func() (int, int, map[string]int, error) {
+			n, err := runLSM(u, cfg, seed*7717+uint64(i), steps, path)
+			return n, 0, nil, err
+		})
 		total += n
 		if ferr != nil {
 			fmt.Fprintf(os.Stdout, "DRIVER-FAIL %s: %v\n", path, ferr)
